@@ -28,6 +28,8 @@ SENDERS = {   # class -> (outer from or None for absent, verdict class)
     "whitespace": (" alice@example.org", "reject"),
 }
 NS_C, NS_F = "urn:xmpp:carbons:2", "urn:xmpp:forward:0"
+PREV_ACCOUNT = "romeo@montague.example"
+SENDERS["previous-account"] = (PREV_ACCOUNT, "reject")   # the bare address of an account this client object was logged into before
 
 
 def canon(el):
@@ -82,13 +84,36 @@ def worker(args):
     n = 0
     for s0 in range(0, count, per):
         gen = r.choice(["carbons2", "carbons1"])
-        steps = [wire.client(managers=[gen])] + wire.login_sasl(sm=True) + [dict(op="wait_signal", name="connected")]
+        history = "fresh"
+        if gen == "carbons2" and r.random() < 0.35:
+            # the same client object was used before: for another account, or for the same one; the judged session starts over the ordinary path
+            # (carbons enabled by IQ) or with carbons enabled inline through SASL2 + Bind 2
+            prev = r.choice(["other-account", "same-account"])
+            path = r.choice(["iq", "bind2"])
+            history = "%s-then-%s" % (prev, path)
+            pj = PREV_ACCOUNT + "/x" if prev == "other-account" else wire.JID
+            steps = [wire.client(managers=[gen], jid=pj)] + wire.login_sasl(sm=False, bind_jid=pj)
+            steps += [wire.A("iq", child="enable", optional=True, timeout=500), wire.S("<iq type='result' id='$ID'/>", optional=True), dict(op="wait_signal", name="connected"),
+                      dict(op="fence"), dict(op="disconnect"), dict(op="wait_signal", name="disconnected")]
+            if path == "iq":
+                steps += [dict(op="connect", jid=wire.JID, password=wire.PASSWORD, disabled=[])] + [s_ for s_ in wire.login_sasl(sm=True, sid="s2") if s_.get("op") != "connect"]
+                steps += [wire.A("iq", child="enable", optional=True, timeout=500), wire.S("<iq type='result' id='$ID'/>", optional=True)]
+            else:
+                steps += [dict(op="connect", jid=wire.JID, password=wire.PASSWORD, sasl2=True, userAgent=True, disabled=[]), wire.A("stream:stream"),
+                          wire.S(wire.hdr("s2") + wire.features(wire.f_sasl2(mechs=["PLAIN"], bind2=True, sm=True, bind_features=[NS_C]))), wire.A("authenticate"),
+                          wire.S("<success xmlns='urn:xmpp:sasl:2'><authorization-identifier>%s</authorization-identifier><bound xmlns='urn:xmpp:bind:0'><enabled xmlns='urn:xmpp:sm:3' id='smid-b2'/></bound></success>" % wire.JID, smOn=True),
+                          wire.S(wire.features()), wire.A("iq", child="query", optional=True, timeout=500), wire.S("<iq type='result' id='$ID'><query xmlns='jabber:iq:roster'/></iq>", optional=True)]
+            steps += [dict(op="wait_signal", name="connected")]
+        else:
+            steps = [wire.client(managers=[gen])] + wire.login_sasl(sm=True) + [dict(op="wait_signal", name="connected")]
         inj = []
         for _ in range(min(per, count - s0)):
             n += 1
             cls = r.choice(list(SENDERS))
             if r.random() < 0.25:
                 cls = "own-bare"
+            if history.startswith("other-account") and r.random() < 0.3:
+                cls = "previous-account"
             direction = r.choice(["sent", "received"])
             shape = r.choice(SHAPES)
             inner, ifrom, ito, ibody = inner_message(r, pool, n, direction)
@@ -98,7 +123,7 @@ def worker(args):
             inj.append((n, cls, direction, shape, x, inner))
         steps += [dict(op="fence", sm=True), dict(op="settle", quiet=20), dict(op="fence", sm=True)]
         cases.append(dict(steps=steps, timeout=8000))
-        metas.append((gen, inj))
+        metas.append((gen + ("" if history == "fresh" else " after " + history), inj))
     outs, crashes = wire.run_cases(binary, cases)
     viol, stats, inconc = [], collections.Counter(), []
     for rq, info in crashes:
@@ -112,6 +137,8 @@ def worker(args):
             continue
         presented = [e for e in j if e["ev"] == "cli_sig" and e["name"] in ("messageReceived", "carbon1.messageReceived", "carbon1.messageSent")]
         normalized = {e["tag"]: e.get("xml") for e in j if e["ev"] == "normalized"}
+        if " after " in gen:
+            stats["sessions_with_history:" + gen.split(" after ")[1]] += 1
         for (n, cls, direction, shape, x, inner) in inj:
             stats["injected"] += 1
             stats["class:" + SENDERS[cls][1]] += 1
@@ -135,7 +162,7 @@ def worker(args):
                     viol.append(("own-carbon-not-presented-once got=%d %s %s" % (len(unwrapped), shape, gen), "a carbon from the own bare JID was presented %d times" % len(unwrapped), w))
                     continue
                 p = unwrapped[0]
-                want_sig = "messageReceived" if gen == "carbons2" else ("carbon1.messageSent" if direction == "sent" else "carbon1.messageReceived")
+                want_sig = "messageReceived" if gen.startswith("carbons2") else ("carbon1.messageSent" if direction == "sent" else "carbon1.messageReceived")
                 bad = None
                 if not p.get("carbon"):
                     bad = "not-flagged-forwarded"
